@@ -207,6 +207,21 @@ fn replay(line: &Value, e: &Embedding, want: &QWant, rep: &mut Report) {
                 check(rep, p, &[xe, xlo, xhi], "p within rounding of a k/n boundary");
             }
         }
+        // a little below / above an exact boundary -- far more than rounding, far less than the
+        // spacing of the p grid: the definition gives the lower / upper order statistic, strictly
+        let np = pr.mul(Rat::int(cnt as i128));
+        if np.d == 1 && p_exact {
+            for sh in [30, 40, 47] {
+                let delta = p2(-sh);
+                if p > 0.0 {
+                    check(rep, p - delta, &[xlo], "p slightly below a k/n boundary");
+                }
+                if p < 1.0 {
+                    let want = if np.n == 0 { xlo } else { xhi };
+                    check(rep, p + delta, &[want], "p slightly above a k/n boundary");
+                }
+            }
+        }
         // one ulp either side of an exact boundary: within rounding of a whole number
         let boundary = whole || pr.n == 0 || pr == Rat::int(1) || (pr.mul(Rat::int(cnt as i128)).d == 1);
         if boundary {
@@ -347,7 +362,9 @@ pub fn process_line(v: &Value, want: &QWant, rep: &mut Report) {
     if data.len() >= 2 && data.iter().any(|x| x != &data[0]) {
         rep.nontrivial.insert(hs);
     }
-    rep.sample(json!({"p": v["p"], "data": v["data"], "spec_pos": v["pos"], "spec_q": v["q"]}));
+    if rep.nontrivial.contains(&hs) {
+        rep.sample(json!({"p": v["p"], "data": v["data"], "spec_pos": v["pos"], "spec_q": v["q"]}));
+    }
     for e in &want.embeddings {
         // a panic of the code under test is data, not a tool failure
         let r = std::panic::catch_unwind(std::panic::AssertUnwindSafe(|| replay(v, e, want, &mut *rep)));
